@@ -581,3 +581,24 @@ SPECS += [
                                   "stmt": True, "updates": ["pushes"]}},
          drop_assign=["out"], drop_calls=["self._out_data_cache.pop"], props=["C06"]),
 ]
+
+
+# ---- sdk/output.py, sdk/adapter.py : push notifications (C01 C11 C12) ---------------------------------------------------
+# `target.source_updated(time)` on another object is recorded in a trace: who was notified, with which time, in which order
+NOTES = "List[Tuple[Obj,Opt[Time]]]"
+NOTIFY = {"lean": "Py.recordPush", "args": ["self.notes", "(target, time)"], "argtypes": [NOTES, "Tuple[Obj,Opt[Time]]"],
+          "stmt": True, "updates": ["notes"]}
+SPECS += [
+    dict(lean="Output_notify_targets", path="sdk/output.py", qual="Output.notify_targets", group="Notify",
+         fields={"_targets": "List[Obj]", "notes": NOTES}, params={"time": "Opt[Time]"}, ret="Unit",
+         drop_calls=["_check_time"], calls={"target.source_updated": NOTIFY}, props=["C01", "C11", "C12"]),
+    dict(lean="Adapter_notify_targets", path="sdk/adapter.py", qual="Adapter.notify_targets", group="Notify",
+         fields={"targets": "List[Obj]", "notes": NOTES}, params={"time": "Opt[Time]"}, ret="Unit",
+         assume_false=["time is not None and (not isinstance(time, datetime))"],
+         calls={"target.source_updated": NOTIFY}, props=["C01", "C11", "C12"]),
+    dict(lean="Adapter_source_updated", path="sdk/adapter.py", qual="Adapter.source_updated", group="Notify",
+         fields={"targets": "List[Obj]", "notes": NOTES}, params={"time": "Opt[Time]"}, ret="Unit",
+         assume_false=["time is not None and (not isinstance(time, datetime))"], drop_calls=["self._source_updated"],
+         calls={"self.notify_targets": {"lean": "Adapter_notify_targets", "args": ["self.targets", "self.notes", 0],
+                                        "stmt": True, "updates": ["notes"]}}, props=["C01", "C11", "C12"]),
+]
